@@ -312,14 +312,21 @@ def mround(ctx, a, n=None):
         return Sym(r, int)
     if type(n) is Sym:
         raise Unsupported("round with symbolic digits")
+    key = (z3.simplify(x).get_id(), int(n))
+    cached = ctx.round_cache.get(key)
+    if cached is not None:
+        return Sym(cached, a.ty)
     r = ROUND(x, z3.IntVal(int(n)))
     eps = z3.Q(1, 2 * 10 ** int(n)) if int(n) >= 0 else z3.RealVal(10 ** (-int(n))) / 2
     ctx.solver.add(r - x <= eps, x - r <= eps)
-    for (x2, n2, r2) in ctx.round_terms:
-        if n2 == int(n):
-            ctx.solver.add(z3.Implies(x <= x2, r <= r2), z3.Implies(x2 <= x, r2 <= r))
-    ctx.round_terms.append((x, int(n), r))
-    ctx.used_models.add("round(x,n): |round(x,n)-x| <= 0.5*10^-n; monotone function of x for fixed n")
+    if ctx.options.get("round_monotone"):
+        for (x2, n2, r2) in ctx.round_terms:
+            if n2 == int(n):
+                ctx.solver.add(z3.Implies(x <= x2, r <= r2), z3.Implies(x2 <= x, r2 <= r))
+        ctx.round_terms.append((x, int(n), r))
+        ctx.used_models.add("round(x,n): monotone in x for fixed n")
+    ctx.round_cache[key] = r
+    ctx.used_models.add("round(x,n): |round(x,n)-x| <= 0.5*10^-n; a function of (x,n)")
     return Sym(r, a.ty)
 
 
